@@ -149,7 +149,7 @@ impl Scenario for C18 {
         for _ in 0..n {
             let cert = if !present.is_empty() && rng.chance(0.7) { *rng.pick(&present) } else { rng.below(8) };
             match rng.below(14) {
-                0..=5 => steps.push(json!({"op": "validate", "cert": cert, "policy": *rng.pick(&["Basic128Rsa15", "Basic256", "Basic256Sha256", "Aes128-Sha256-RsaOaep", "Aes256-Sha256-RsaPss"]), "host": rng.chance(0.5), "uri": rng.chance(0.5), "wrong_ident": rng.chance(0.15), "inner": rng.chance(0.3)})),
+                0..=5 => steps.push(json!({"op": "validate", "cert": cert, "policy": *rng.pick(&["Basic128Rsa15", "Basic256", "Basic256Sha256", "Aes128-Sha256-RsaOaep", "Aes256-Sha256-RsaPss"]), "host": rng.chance(0.5), "uri": rng.chance(0.5), "wrong_ident": rng.chance(0.15), "uri_case": rng.chance(0.15), "inner": rng.chance(0.3)})),
                 6 => steps.push(json!({"op": "admin_move", "cert": cert})),
                 7 => steps.push(json!({"op": "admin_put", "cert": cert, "dir": *rng.pick(&["trusted", "rejected"])})),
                 8 => steps.push(json!({"op": "admin_delete", "cert": cert, "dir": *rng.pick(&["trusted", "rejected"])})),
@@ -273,7 +273,9 @@ impl Scenario for C18 {
                     let policy = wire::policy_by_name(s["policy"].as_str().unwrap_or("Basic256Sha256"));
                     let wrong = s["wrong_ident"].as_bool().unwrap_or(false);
                     let host: Option<&str> = if s["host"].as_bool().unwrap_or(false) { Some(if wrong { "evil.example" } else { HOST_OK }) } else { None };
-                    let uri: Option<&str> = if s["uri"].as_bool().unwrap_or(false) { Some(if wrong { "urn:evil" } else { URI_OK }) } else { None };
+                    // an application URI is compared exactly: the same URI in another case does not match
+                    let uri_case = s["uri_case"].as_bool().unwrap_or(false);
+                    let uri: Option<&str> = if s["uri"].as_bool().unwrap_or(false) { Some(if wrong { "urn:evil" } else if uri_case { "urn:SIM:Client" } else { URI_OK }) } else { None };
                     // state before
                     let in_rejected_before = disk.rejected().join(&names[ci]).exists();
                     let trusted_before = disk.read(&disk.trusted(), &names[ci]);
